@@ -24,8 +24,11 @@
    The network (RaftSys.v) is a monotonically growing bag: a message once sent can be
    delivered any number of times, in any order, or never.
 
+   Log compaction and snapshots: the model keeps whole logs (compaction changes no handler's
+   behaviour: everything compacted is committed); MsgSnap carries, as a ghost field, the prefix
+   it stands for, and raft.restore replaces the log by it.
    Not in this model: PreVote, CheckQuorum/leases, leader transfer, ReadIndex, learners,
-   snapshots and log compaction, configuration changes, the uncommitted-size quota.
+   configuration changes, the uncommitted-size quota.
    Go panics (conflict at or below commit, commitTo beyond the log) are modelled as "the
    node does nothing and sends nothing". *)
 Require Import List Arith Bool.
@@ -147,12 +150,13 @@ Definition opt_nat_eqb (a b : option nat) : bool :=
 (* ------------------------------------------------------------------ messages *)
 
 Inductive mtype : Type :=
-| MsgVote | MsgVoteResp | MsgApp | MsgAppResp | MsgHeartbeat | MsgHeartbeatResp.
+| MsgVote | MsgVoteResp | MsgApp | MsgAppResp | MsgHeartbeat | MsgHeartbeatResp | MsgSnap.
 
 Definition mtype_eqb (a b : mtype) : bool :=
   match a, b with
   | MsgVote, MsgVote | MsgVoteResp, MsgVoteResp | MsgApp, MsgApp
-  | MsgAppResp, MsgAppResp | MsgHeartbeat, MsgHeartbeat | MsgHeartbeatResp, MsgHeartbeatResp => true
+  | MsgAppResp, MsgAppResp | MsgHeartbeat, MsgHeartbeat | MsgHeartbeatResp, MsgHeartbeatResp
+  | MsgSnap, MsgSnap => true
   | _, _ => false
   end.
 
@@ -283,6 +287,23 @@ Section Node.
     | None => (n, [])
     end.
 
+  (* raft.handleSnapshot / raft.restore.  m_index, m_logterm = Snapshot.Metadata.Index, .Term;
+     m_ents is ghost: the log prefix the snapshot stands for (the model keeps whole logs;
+     compaction is invisible to every handler).  After an actual restore the progress tracker
+     is rebuilt from the snapshot's ConfState (same voters): votes and Match are reset. *)
+  Definition handle_snapshot (m : msg) (n : nstate) : nstate * list msg :=
+    if m_index m <=? n_commit n then
+      (n, [reply MsgAppResp (m_from m) (n_term n) (n_commit n) false])
+    else if term_at (n_log n) (m_index m) =? m_logterm m then          (* matchTerm: fast-forward commit *)
+      match commit_to (n_log n) (n_commit n) (m_index m) with
+      | Some c => (set_commit c n, [reply MsgAppResp (m_from m) (n_term n) c false])
+      | None => (n, [])
+      end
+    else
+      (mkN (n_term n) (n_vote n) (m_ents m) (m_index m) (n_role n) (n_lead n)
+           (fun _ => None) (fun i => if i =? id then m_index m else 0),
+       [reply MsgAppResp (m_from m) (n_term n) (m_index m) false]).
+
   Definition can_vote (m : msg) (n : nstate) : bool :=
     opt_nat_eqb (n_vote n) (Some (m_from m))
     || (opt_nat_eqb (n_vote n) None && opt_nat_eqb (n_lead n) None).
@@ -319,13 +340,19 @@ Section Node.
         | _ => (n, [])
         end
     | MsgHeartbeatResp => (n, [])
+    | MsgSnap =>
+        match n_role n with
+        | Leader => (n, [])
+        | Candidate => handle_snapshot m (become_follower (n_term n) (Some (m_from m)) n)
+        | Follower => handle_snapshot m (set_lead (Some (m_from m)) n)
+        end
     end.
 
   (* raft.Step for a network message *)
   Definition step_msg (m : msg) (n : nstate) : nstate * list msg :=
     if n_term n <? m_term m then
       let lead := match m_type m with
-                  | MsgApp | MsgHeartbeat => Some (m_from m)
+                  | MsgApp | MsgHeartbeat | MsgSnap => Some (m_from m)
                   | _ => None
                   end in
       step_same m (become_follower (m_term m) lead n)
@@ -381,6 +408,11 @@ Section Node.
     | MsgHeartbeat =>
         role_eqb (n_role n) Leader
         && (m_commit m <=? Nat.min (n_match n (m_to m)) (n_commit n))
+    | MsgSnap =>
+        (* a snapshot of a committed prefix of the leader's log (storage.Snapshot after a compaction) *)
+        role_eqb (n_role n) Leader && (m_index m <=? n_commit n)
+        && (m_logterm m =? term_at (n_log n) (m_index m))
+        && log_eqb (m_ents m) (firstn (m_index m) (n_log n))
     | _ => false
     end.
 End Node.
